@@ -6,6 +6,7 @@ import (
 	"fmt"
 	"sort"
 	"strings"
+	"time"
 
 	openfgav1 "github.com/openfga/api/proto/openfga/v1"
 	"google.golang.org/protobuf/encoding/protojson"
@@ -176,10 +177,15 @@ func dumpTuples(ctx context.Context, ds storage.OpenFGADatastore, store string) 
 }
 
 func dumpChanges(ctx context.Context, ds storage.OpenFGADatastore, store string, desc bool, pageSize int, objectType string) ([]change, error) {
+	return dumpChangesH(ctx, ds, store, desc, pageSize, objectType, 0)
+}
+
+// dumpChangesH follows the storage-level ReadChanges with a horizon offset.
+func dumpChangesH(ctx context.Context, ds storage.OpenFGADatastore, store string, desc bool, pageSize int, objectType string, horizon time.Duration) ([]change, error) {
 	var out []change
 	token := ""
 	for page := 0; page < 10000; page++ {
-		chs, next, err := ds.ReadChanges(ctx, store, storage.ReadChangesFilter{ObjectType: objectType}, storage.ReadChangesOptions{SortDesc: desc, Pagination: storage.PaginationOptions{PageSize: pageSize, From: token}})
+		chs, next, err := ds.ReadChanges(ctx, store, storage.ReadChangesFilter{ObjectType: objectType, HorizonOffset: horizon}, storage.ReadChangesOptions{SortDesc: desc, Pagination: storage.PaginationOptions{PageSize: pageSize, From: token}})
 		if err != nil {
 			if errors.Is(err, storage.ErrNotFound) {
 				break
